@@ -125,7 +125,8 @@ def c_const(name):
     x = BY_NAME[k["recv"]]
     if "fields" in k:
         kvs = []
-        for (ident, val), f in zip(k["fields"], x["fields"]):
+        xfields = x.get("fields") or [{"multiple": False, "ty": x.get("inner")} for _ in k["fields"]]
+        for (ident, val), f in zip(k["fields"], xfields):
             if val is None:
                 v = "(VList [])" if f["multiple"] else "(default_of %s)" % c_ty(f["ty"])
             else:
